@@ -167,6 +167,7 @@ def c01(ck):
             s.add("decode", r, 0, 1)
             s.add("decodex", r, 0, lid, 2)
             ck.add(Exec("long-%s-%d" % (lid, k), s.lines))
+    boundary_phrase_execs(ck, rng, "c01")
     ck.validate()
     ck.require_outcomes(["Encode:-", "Decode:0", "DecodeX:0", "Decode:7"])
     ck.assumptions += ["NFC/NFKD are supplied by utf8proc 2.8 as the injected dependency; its NFC output is compared with Python unicodedata (golden) on every composed phrase",
@@ -332,6 +333,7 @@ def c02(ck):
             s.add("load", s.buf(codec.image(sec, 321, 0, good ^ d)), 1)
             s.add("free", 1)
         ck.add(Exec("load-check-%d" % part, s.lines))
+    boundary_phrase_execs(ck, rng, "c02")
     ck.validate()
     ck.require_outcomes(["DecodeX:3", "DecodeX:0", "Load:3"])
     ck.exhaustive = not quick
@@ -444,6 +446,7 @@ def c03(ck):
         s.add("decodex", 1, coin, lid, 2)
         s.add("encode", 2, rng.choice(LANG_IDS), coin, 3)
         ck.add(Exec("history-%d" % n, s.lines))
+    boundary_phrase_execs(ck, rng, "c03")
     ck.validate()
     ck.exhaustive = not quick
     ck.assumptions += ["the 165 unit seeds and their pairs determine a bit-linear packing; linearity is TLC-checked on the specification "
@@ -528,6 +531,29 @@ def c05(ck):
             s.add("free", 1)
         s.add("env", "fail=0")
         ck.add(Exec("disabled-feature-%d" % n, s.lines))
+    # the coin belongs to the phrase, not to the seed object: a seed restored from a phrase for coin A, encoded for B,
+    # gives B's phrase (decodes for B, is a checksum error for A)
+    for n in range(10 if quick else 100):
+        s = Script()
+        s.make_seed(0, rand_secret(rng), rng.below(1024), rng.choice([0, 0, 5, 16]), rng, enable=7)
+        lid, a = rng.choice(LANG_IDS), rng.choice(COINS_BOUNDARY + [rng.below(2048)])
+        b = rng.choice([a ^ 1, a ^ 1024, (a + 1) % 2048, rng.below(2048)])
+        s.add("encode", 0, lid, a, 1)
+        for how in ("decodex", "decode"):
+            if how == "decodex":
+                s.add("decodex", 1, a, lid, 1)
+            else:
+                s.add("decode", 1, a, 1)
+            lid2 = rng.choice(LANG_IDS)
+            s.add("encode", 1, lid2, b, 2)
+            s.add("decodex", 2, b, lid2, 2)
+            s.add("decodex", 2, a, lid2, 3)
+            s.add("store", 1, 1)
+            s.add("load", 1, 4)
+            s.add("encode", 4, lid2, b, 3)
+            for h in (1, 2, 3, 4):
+                s.add("free", h)
+        ck.add(Exec("coin-not-bound-%d" % n, s.lines))
     step = 8 if quick else 1
     for lid in (["en", "ko"] if quick else LANG_IDS):
         # row: one A, every B
@@ -577,6 +603,7 @@ def c05(ck):
             s.add("decode", 1, b, 1)
             s.add("free", 1)
         ck.add(Exec("pairs-%s" % lid, s.lines))
+    boundary_phrase_execs(ck, rng, "c05")
     ck.validate()
     ck.require_outcomes(["DecodeX:3", "DecodeX:0", "Decode:3"])
     ck.exhaustive = not quick
@@ -1327,6 +1354,66 @@ def cross_accepted(l1, l2):
     return _CROSS[(l1, l2)]
 
 
+def equal_word_phrase(k):
+    """(indices, coin) of the valid phrase whose sixteen words are all entry k of the list (k even): the data words are
+    all k, and the coin is what makes word 2 equal to k as well."""
+    base = [0] + [0] + [k] * 14
+    vals = {}
+    c0 = codec.fix_check(list(base))[0]
+    for d1 in range(2048):
+        w = list(base)
+        w[1] = d1
+        vals[d1] = codec.fix_check(w)[0]
+        if vals[d1] == k:
+            return [k, d1] + [k] * 14, d1 ^ k
+    return None, None
+
+
+def boundary_phrase_execs(ck, rng, tag, n_equal=3):
+    """Phrases at the edges of what the library can produce, through encode and both decoders: the longest phrase of
+    every language (every word, the check word too, of maximal length - 543 bytes in Korean, the whole buffer), a
+    single-word change of it, and phrases that consist of one word repeated sixteen times (the all-zero seed, and for
+    every even list entry the seed and coin that spell it sixteen times)."""
+    for lid in LANG_IDS:
+        L = codec.lang(lid)
+        s = Script()
+        s.add("enable", 7)
+        for src in ("wb", "wcb"):
+            w = extremal_idx(rng, L[src], tries=20000)
+            if not w:
+                continue
+            seed_script(s, 0, w, rng)
+            s.add("encode", 0, lid, 0, 1)
+            s.add("decodex", 1, 0, lid, 1)
+            s.add("decode", 1, 0, 2)
+            s.add("store", 1, 1)
+            mx = max(len(x) for x in L[src])
+            longest = [i for i in range(2048) if len(L[src][i]) == mx]
+            for pos in (0, 1 + rng.below(15)):
+                w2 = list(w)
+                alt = [i for i in longest if i != w[pos]]
+                if alt:
+                    w2[pos] = rng.choice(alt)
+                    r = s.string(codec.phrase(lid, w2))
+                    s.add("decodex", r, 0, lid, 3)
+                    s.add("decode", r, 0, 3)
+            for h in (0, 1, 2, 3):
+                s.add("free", h)
+        ks = [0] + [2 * rng.below(1024) for _ in range(n_equal)]
+        for k in ks:
+            w, coin = equal_word_phrase(k)
+            if w is None:
+                continue
+            r = s.string(codec.phrase(lid, [k] * 16))
+            s.add("decodex", r, coin, lid, 1)
+            s.add("decode", r, coin, 2)
+            s.add("encode", 1, lid, coin, 2)
+            s.add("decodex", r, (coin + 1) % 2048, lid, 3)
+            for h in (1, 2, 3):
+                s.add("free", h)
+        ck.add(Exec("%s-boundary-%s" % (tag, lid), s.lines))
+
+
 def structured_strings(rng, n):
     """Strings around valid phrases: abbreviations, foreign words, separator and count defects, raw bytes."""
     import unicodedata
@@ -1460,6 +1547,7 @@ def c09(ck):
                 s.add("decode", ro, 0, 1)
                 s.add("free", 1)
             ck.add(Exec("history-%d-%s" % (n, prev), s.lines))
+    boundary_phrase_execs(ck, rng, "c09")
     ck.validate()
     ck.require_outcomes(["Decode:0", "Decode:1", "Decode:2", "Decode:3", "Decode:7", "Decode:6", "DecodeX:2", "DecodeX:0"])
     ck.assumptions += ["the relation between automatic and explicit decoding is a TLC-checked theorem of the specification "
@@ -2027,6 +2115,16 @@ def c14(ck):
         # reaches its return (liveness, checked without the view; about five minutes)
         ck.model("PolyseedImpl.tla", "PolyseedImpl_live.cfg", heap="16g", timeout=3000)
     strs = hostile_strings(rng, 1200 if quick else 40000, S)
+    # "any length": strings beyond 2^31 and 2^32 bytes (a length kept in an int or a 32-bit size goes wrong there);
+    # the decoders may look at the head of such a string only, and that is what the specification is given
+    s = Script()
+    s.add("enable", 0)
+    pats = [s.string(b"a"), s.string(b"abandon "), s.string(codec.phrase("en", rand_idx(rng)) + b" ")]
+    for total in ([2 ** 31 + 16, 2 ** 32 + 5] if quick else [2 ** 31 - 1, 2 ** 31, 2 ** 31 + 16, 2 ** 32 - 1, 2 ** 32 + 5, 2 ** 32 + 2 ** 31 + 7]):
+        for r in pats:
+            s.add("decode", r, 0, 1, "rep=%d" % total)
+            s.add("decodex", r, 0, "en", 1, "rep=%d" % total)
+    ck.add(Exec("huge-strings", s.lines, variant="plain"))
     for variant in ("san", "plain"):
         for n, grp in enumerate(chunked(strs if variant == "san" else strs[::3], 24)):
             s = Script()
